@@ -33,6 +33,11 @@ def quiet_round(w, apply, period=0.05, drain_iters=24):
         c = w.net.pending.get(cid)
         if c is None:
             continue
+        if c.shost is not None and w.blocked(c.chost, c.shost):
+            # black-holed: the SYN gets no answer until the OS gives up
+            if w.T - c.t_start > w.cfg.get('sched', {}).get('connect_timeout', 8.0):
+                apply([0.0, 'conn', cid, 'timeout'])
+            continue
         apply([0.0, 'conn', cid, 'ok' if (c.shost is not None and (c.shost, c.port) in w.net.listeners) else 'refuse'])
     for it in range(drain_iters):
         live = w.net.live_pipes()
